@@ -153,3 +153,22 @@ theorem crcArbitersMN_total (code : Bytes) : crcArbitersMN true code ≠ .panic 
   exact val_np _
 
 end ElaVerif.CoinbaseTotal
+
+namespace ElaVerif.CoinbaseTotal
+open ElaVerif.Script
+
+theorem crossChainIndex_total (nOut idx : Nat) : crossChainIndex true nOut idx ≠ .panic := by
+  unfold crossChainIndex
+  simp only [if_true]
+  apply ite_np (fun _ => val_np _); intro h
+  have : idx < nOut := by simp at h; omega
+  rw [if_pos this]; exact val_np _
+
+theorem revertToDPOSCheck_total (nPrograms : Nat) (code : Bytes) : revertToDPOSCheck true nPrograms code ≠ .panic := by
+  unfold revertToDPOSCheck
+  apply ite_np (fun _ => val_np _); intro h
+  have : nPrograms ≠ 0 := by intro h0; apply h; exact ⟨rfl, h0⟩
+  rw [if_neg this]
+  exact crcArbitersMN_total code
+
+end ElaVerif.CoinbaseTotal
